@@ -43,6 +43,7 @@ func (h *TimeHeap) Clear() {
 	for h.heap.Len() > 0 {
 		_ = h.heap.Pop()
 	}
+	h.total = 0
 }
 
 // AveragePerSecond calculates the average per second of all entries in the given duration.
